@@ -169,6 +169,23 @@ def stateful(ctx):
                     common.add_violation(ctx, 'after a free variable was changed the occupancy does not follow its new value',
                                          dict(case, atom=a.name, free_variable=m, value=newv, code=a.sof), exp, a.occupancy)
                     break
+            # free variables added through the API (FVARs.set_free_variables) count like the ones of the file
+            nfv0 = len(shx.fvars)
+            extra = rng.randint(1, 3)
+            dummy = round(rng.uniform(0.2, 0.8), 3)
+            shx.fvars.set_free_variables(nfv0 + extra, dummy)
+            fv_ext = list(fv) + [dummy] * (nfv0 + extra - len(fv))
+            for mm in range(nfv0 + 1, nfv0 + extra + 1):
+                for sign in (1, -1):
+                    code = sign * (10 * mm + 0.5)
+                    shx.add_atom(name='X%d%s' % (mm, 'p' if sign > 0 else 'n'), coordinates=[0.4, 0.5, 0.6], element=ELEMS[0], sof=code, uvals=[0.04, 0.0, 0.0, 0.0, 0.0, 0.0])
+                    a_new = shx.atoms.all_atoms[-1]
+                    ev += 1
+                    exp = rule(code, fv_ext)
+                    if exp is not None and abs(a_new.occupancy - exp) > 1e-9:
+                        common.add_violation(ctx, 'the occupancy of an atom tied to a free variable that was added with set_free_variables() does not follow the rule',
+                                             dict(case, free_variable=mm, value=dummy, code=code), exp, a_new.occupancy)
+                        break
             # an atom added through the API sits behind the Q-peaks in the atom list
             el = rng.randrange(len(ELEMS))
             now = dict((key.upper(), v) for key, v in shx.sum_formula_exact_as_dict().items())
